@@ -152,8 +152,11 @@ def build_futures():
     _SHIM_FUTURES["thread"] = thread
 
     def reset():
+        import itertools
         thread._global_shutdown_lock._at_fork_reinit()
         thread._shutdown = False
+        # pool names ("ThreadPoolExecutor-N_k") restart with every run, so that recorded choice sequences replay exactly
+        thread.ThreadPoolExecutor._counter = itertools.count().__next__
     ds.RESET_HOOKS.append(reset)
     return _SHIM_FUTURES
 
